@@ -1760,8 +1760,79 @@ def check_C15(tier: str, seed: int) -> int:
         w.cleanup()
 
 
+
+# ==========================================================================
+# C16  immutable, thread-safe, deterministic
+# ==========================================================================
+def fnv_halves(text: str) -> Tuple[int, int]:
+    h = 0xcbf29ce484222325
+    for c in text.encode():
+        h = ((h ^ c) * 0x100000001b3) & 0xFFFFFFFFFFFFFFFF
+    return h >> 32, h & 0xFFFFFFFF
+
+
+def check_C16(tier: str, seed: int) -> int:
+    v = Verdict("C16", tier, seed, "proof")
+    ob = vplib.check_obligations("C16", expected=["C16_interleave", "C16_schedule_independent", "C16_history_pointwise"])
+    vplib.build_harness(["release", "dev"])
+    w = Work("C16")
+    try:
+        rng = random.Random(seed)
+        direct_fail, corr_fail = [], []
+        ok, err = vplib.build_sendsync()
+        if not ok:
+            direct_fail.append({"what": "asefile::AsepriteFile is not Send + Sync (the assertion binary does not compile)", "rustc": err})
+        items: List[Tuple[str, str]] = []
+        for s, data in small_sprites(rng, 60 if tier == "quick" else 600, max_canvas=8, max_layers=5, max_frames=3):
+            items.append((w.put(data), "generated"))
+        stream = corruption_stream(rng, "quick", w, scale=0.08 if tier == "quick" else 0.5)
+        pre = vplib.impl_observe("release", [p for p, _ in stream], w.dir, 0, mem_kb=2 * 1024 * 1024)
+        loadable = [stream[i] for i in range(len(stream)) if outcome(pre[i]) == 0]
+        rng.shuffle(loadable)
+        items += [(p, "corrupted but loadable: " + d) for p, d in loadable[: (150 if tier == "quick" else 3000)]]
+        items += [(p, "corpus") for p in small_corpus(3000 if tier == "quick" else 20000)]
+        paths = [p for p, _ in items]
+        cmd_tail = ["--level", "15", "--max-frames", "3", "--max-layers", "5"]
+        thr = {prof: vplib.run_sharded([vplib.impl_driver(prof), "threads"] + cmd_tail, paths, w.dir, "thr_" + prof, shards=4, timeout=2400,
+                                       mem_kb=4000000) for prof in ("release", "dev")}
+        mb = vplib.model_observe(paths, w.dir, 15, max_frames=3, max_layers=5)
+        for i, (p, desc) in enumerate(items):
+            br, bd = thr["release"][i], thr["dev"][i]
+            for prof, b in (("release", br), ("dev", bd)):
+                if outcome(b) != 0 or any(l[0] == 99 for l in b[0]):
+                    direct_fail.append({"what": "load or concurrent observation failed", "profile": prof, "input": desc, "comments": b[1][:3] if b else None,
+                                        "_data": open(p, "rb").read()})
+                    continue
+                l50 = next((l for l in b[0] if l[0] == 50), None)
+                if l50 is None or l50[1:4] != [1, 1, 1]:
+                    direct_fail.append({"what": "observations differ between repetitions / reloads / threads (repeat_ok, reload_ok, threads_ok) = %s" % (l50[1:4] if l50 else None),
+                                        "profile": prof, "input": desc, "_data": open(p, "rb").read()})
+            hr = next((l for l in br[0] if l[0] == 51), None) if br else None
+            hd = next((l for l in bd[0] if l[0] == 51), None) if bd else None
+            if hr != hd:
+                direct_fail.append({"what": "optimised and unoptimised builds observe different results", "input": desc, "_data": open(p, "rb").read()})
+            if hr is not None and outcome(mb[i]) == 0:
+                text = "".join(" ".join(map(str, l)) + "\n" for l in mb[i][0][1:])
+                if list(fnv_halves(text)) != hr[1:3]:
+                    corr_fail.append({"input": p, "desc": desc, "diff": "observation hash differs from the model's", "_data": open(p, "rb").read()})
+            elif outcome(mb[i]) != 0:
+                corr_fail.append({"input": p, "desc": desc, "diff": "model outcome %d" % outcome(mb[i]), "_data": open(p, "rb").read()})
+        proof_level_coverage(v, ob, {
+            "evaluations": 2 * len(items), "distinct_nontrivial": len(items),
+            "rule": "loadable inputs (generated sprites, loadable members of the corruption stream, small corpus files): the whole-API observation is taken 3 times, "
+                    "after a second load of the same bytes, and from 16 threads sharing one reference with rotated section orders, in release and dev builds; all "
+                    "must be equal, equal across the two builds, and equal to the model's observation (hash); the Send + Sync assertion binary must compile",
+            "samples": [d for _, d in items[:2] + items[-2:]], "sendsync_compiles": ok,
+            "correspondence_disagreements": len(corr_fail), "direct_failures": len(direct_fail)})
+        v.assumptions = ["Send/Sync is decided by rustc; data-race freedom follows from that plus the absence of unsafe/interior mutability, which the run observes but does not prove",
+                         "hash-map backed views are compared as sorted collections (the documentation promises no order)"]
+        return finish_with(v, ob, corr_fail, direct_fail)
+    finally:
+        w.cleanup()
+
+
 CHECKS: Dict[str, Callable[[str, int], int]] = {"C01": check_C01, "C02": check_C02, "C03": check_C03, "C17": check_C17, "C04": check_C04, "C05": check_C05, "C06": check_C06,
-                                                "C07": check_C07, "C08": check_C08, "C09": check_C09, "C10": check_C10, "C11": check_C11, "C15": check_C15, "C13": check_C13, "C18": check_C18, "C14": check_C14, "C19": check_C19}
+                                                "C07": check_C07, "C08": check_C08, "C09": check_C09, "C10": check_C10, "C11": check_C11, "C15": check_C15, "C16": check_C16, "C13": check_C13, "C18": check_C18, "C14": check_C14, "C19": check_C19}
 
 
 
